@@ -113,7 +113,7 @@ func (ex *Exec) civilFromDaysUnless(days *smt.Term, skip *smt.Term) (y, m, d *sm
 	if got, ok := ex.civilMemo[days.ID]; ok && skip == nil {
 		return got[0], got[1], got[2]
 	}
-	if days.Lo != nil && days.Hi != nil && days.Lo.IsInt64() && days.Hi.IsInt64() && days.Hi.Int64()-days.Lo.Int64() <= 1200 {
+	if ex.splitCalendar && days.Lo != nil && days.Hi != nil && days.Lo.IsInt64() && days.Hi.IsInt64() && days.Hi.Int64()-days.Lo.Int64() <= 1200 {
 		// small range: decide the (year, month) the day falls in; the day of month is then linear
 		lo, hi := days.Lo.Int64(), days.Hi.Int64()
 		type seg struct{ y, m, start, end int64 }
@@ -277,8 +277,10 @@ func (ex *Exec) narrow(kind string, t *smt.Term, maxWidth int64) *smt.Term {
 
 func (ex *Exec) mkDate(y, m, d, h, mi, s, ns *smt.Term, loc *LocV) TimeV {
 	b := ex.b
-	y = ex.narrow("year", y, 16)
-	m = ex.narrow("month", m, 64)
+	if ex.splitCalendar {
+		y = ex.narrow("year", y, 16)
+		m = ex.narrow("month", m, 64)
+	}
 	// normalise month into [1,12]
 	m0 := b.Sub(m, ex.k(1))
 	y1 := b.Add(y, b.Div(m0, ex.k(12)))
@@ -297,6 +299,8 @@ func (ex *Exec) mkDate(y, m, d, h, mi, s, ns *smt.Term, loc *LocV) TimeV {
 		if cb {
 			t.ymd = &[3]*smt.Term{y1, m1, d}
 		}
+	} else if ex.checkSat(b.Not(valid)) == smt.Unsat {
+		t.ymd = &[3]*smt.Term{y1, m1, d} // provably in range on this path
 	} else {
 		t.ymd = &[3]*smt.Term{y1, m1, d}
 		t.ymdIf = valid
